@@ -246,50 +246,98 @@ def random_history(rng, flavour, neg, nops, maxcalls=60):
 
 
 def compaction_history(rng, flavour, neg):
-    """Many calls, more than 50 of them cancelled while queued (the reactor's lazy-deletion compaction
-    threshold), interleaved with iterations, then the survivors are run down."""
+    """Many queued calls of which more than 50 (and more than half) are cancelled while queued -- the reactor's
+    lazy-deletion compaction threshold -- then iterations, resets/delays of the survivors and a run-down.
+    Two sizes: within the property's sampling frame (<= 60 calls, few survivors) and larger (up to ~130 calls,
+    dozens of survivors, so that the rebuilt queue has a non-trivial shape)."""
     reactor = flavour == "reactor"
     ops = []
-    n = rng.randint(56, 60)
+    small = rng.random() < 0.4
+    n = rng.randint(56, 60) if small else rng.randint(90, 130)
     step = [["adv", 1], ["iter"]] if reactor else [["adv", 1]]
+    settle = [["iter"]] if reactor else [["adv", 0]]
     for i in range(n):
-        d = rng.choice([2, 3, 4, 5, 6, 8, 10, 12])
+        d = rng.choice([3, 4, 5, 6, 8, 10, 12, 14, 16, 20, 24])
         scr = []
         if rng.random() < 0.15:
             scr = [rng.choice([["cancel", rng.randint(1, n)], ["reset", rng.randint(1, n), rng.choice([0, 1, 3])],
                                ["delay", rng.randint(1, n), rng.choice([1, 2] + ([-1, -2] if neg else []))], ["gdc"]])]
         ops.append(["later", d, scr])
-        if rng.random() < 0.08:
-            ops.extend(step if rng.random() < 0.7 else ([["timeout"]] if reactor else [["gdc"]]))
+        if rng.random() < 0.03:
+            ops.extend(step if rng.random() < 0.5 else ([["timeout"]] if reactor else [["gdc"]]))
+    ops.extend(settle)                      # everything created so far is queued now
     victims = list(range(1, n + 1))
     rng.shuffle(victims)
-    ncancel = rng.randint(51, min(n - 2, 57))
+    ncancel = rng.randint(51, min(n - 2, 57)) if small else rng.randint(n // 2 + 2, n // 2 + 12)
+    live = victims[ncancel:]
     for j, k in enumerate(victims[:ncancel]):
         ops.append(["cancel", k])
-        if rng.random() < 0.06:
-            ops.append(["reset", rng.choice(victims[ncancel:]), rng.choice([1, 2, 4])])
-        if rng.random() < 0.06:
-            ops.append(["delay", rng.choice(victims[ncancel:]), rng.choice([1, 2] + ([-1] if neg else []))])
-        if j in (ncancel // 2, ncancel - 1) or rng.random() < 0.04:
-            ops.extend([["iter"]] if reactor else [["adv", 0]])
+        if rng.random() < 0.05:
+            ops.append(["reset", rng.choice(live), rng.choice([1, 2, 4, 9])])
+        if rng.random() < 0.05:
+            ops.append(["delay", rng.choice(live), rng.choice([1, 2, 5] + ([-1, -2] if neg else []))])
+    ops.extend(settle)                      # an iteration with more than 50 cancelled entries queued
     ops.append(["gdc"])
     if reactor:
         ops.append(["timeout"])
-    for _ in range(rng.randint(6, 14)):
+    for _ in range(rng.randint(10, 30)):
         r = rng.random()
-        if r < 0.5:
-            ops.append(["adv", rng.choice([1, 2, 3])])
+        if r < 0.4:
+            ops.append(["adv", rng.choice([1, 1, 2, 3])])
             if reactor:
                 ops.append(["iter"])
-        elif r < 0.65:
-            ops.append(["reset", rng.choice(victims[ncancel:]), rng.choice([0, 1, 2])])
+        elif r < 0.6:
+            ops.append(["reset", rng.choice(live), rng.choice([0, 1, 2, 6])])
         elif r < 0.8:
-            ops.append(["delay", rng.choice(victims[ncancel:]), rng.choice([1, 2] + ([-1, -2] if neg else []))])
-        elif r < 0.9:
+            ops.append(["delay", rng.choice(live), rng.choice([1, 2, 4] + ([-1, -2, -4] if neg else []))])
+        elif r < 0.88:
+            ops.append(["later", rng.choice([0, 1, 3, 7]), []])
+        elif r < 0.94:
             ops.append(["gdc"])
         else:
             ops.append(["timeout"] if reactor else ["gdc"])
-    ops.append(["adv", 20])
+    ops.append(["adv", 40])
+    if reactor:
+        ops.append(["iter"])
+    ops.append(["gdc"])
+    return {"flavour": flavour, "neg": neg, "ops": ops}
+
+
+def heap_history(rng, flavour, neg):
+    """A populated queue (8..30 calls spread over a wide time range, all queued), then mostly operations that
+    move calls *sooner* (reset to a near time, negative delay) or later, from top level and from inside running
+    calls, with small clock steps in between: exercises re-ordering of an already ordered queue."""
+    reactor = flavour == "reactor"
+    n = rng.randint(8, 30)
+    ops = []
+
+    def mover(k):
+        r = rng.random()
+        if r < 0.5:
+            return ["reset", k, rng.choice([0, 0, 1, 1, 2, 3])]
+        if r < 0.8:
+            return ["delay", k, rng.choice([-6, -4, -2, -1]) if neg and rng.random() < 0.7 else rng.choice([1, 2, 5])]
+        return ["cancel", k]
+
+    for i in range(n):
+        scr = [mover(rng.randint(1, n)) for _ in range(rng.choice([0, 0, 1, 1, 2]))]
+        ops.append(["later", rng.randint(2, 40), scr])
+    ops.extend([["iter"]] if reactor else [["adv", 0]])
+    for _ in range(rng.randint(15, 50)):
+        r = rng.random()
+        if r < 0.6:
+            ops.append(mover(rng.randint(1, n)))
+        elif r < 0.9:
+            ops.append(["adv", rng.choice([1, 1, 2, 3])])
+            if reactor:
+                if rng.random() < 0.3:
+                    ops.append(["timeout"])
+                ops.append(["iter"])
+        elif r < 0.95:
+            ops.append(["later", rng.choice([0, 1, 2, 5]), [mover(rng.randint(1, n))]])
+        else:
+            ops.append(["gdc"])
+    ops.append(["adv", 60])
     if reactor:
         ops.append(["iter"])
     ops.append(["gdc"])
@@ -483,21 +531,28 @@ def run_flavour(ctx, flavour, what):
     """The whole check for one provider: real executions (exhaustive short, random long, compaction-sized,
     TLC-generated behaviours) recorded and validated by TLC against TimersTrace."""
     traces = []
-    depth, maxcalls = ctx.pick((3, 2), (4, 2))
-    for h in exhaustive_histories(flavour, depth, maxcalls, True):
+    depth, maxcalls = ctx.pick(3, 4), 3
+    for h in exhaustive_histories(flavour, depth, maxcalls, True, scripts=True):
+        traces.append(run_history(h))
+    for h in exhaustive_histories(flavour, depth + 1, maxcalls, True, scripts=False):
         traces.append(run_history(h))
     nex = len(traces)
     ctx.exhaustive = True
-    ctx.extra["exhaustive_depth"] = depth
+    ctx.extra["exhaustive_depth_with_one_nested_op"] = depth
+    ctx.extra["exhaustive_depth_top_level_only"] = depth + 1
     ctx.extra["exhaustive_max_calls"] = maxcalls
     ctx.extra["exhaustive_histories"] = nex
-    for i in range(ctx.pick(250, 12000)):
+    for i in range(ctx.pick(250, 6000)):
         neg = ctx.rng.random() < 0.4
         traces.append(run_history(random_history(ctx.rng, flavour, neg, ctx.rng.choice([12, 25, 40, 80, 200]))))
-    ncomp = ctx.pick(12, 400)
+    ncomp = ctx.pick(12, 200)
     for i in range(ncomp):
         traces.append(run_history(compaction_history(ctx.rng, flavour, ctx.rng.random() < 0.4)))
     ctx.extra["compaction_sized_histories"] = ncomp
+    nheap = ctx.pick(60, 1500)
+    for i in range(nheap):
+        traces.append(run_history(heap_history(ctx.rng, flavour, ctx.rng.random() < 0.5)))
+    ctx.extra["queue_reordering_histories"] = nheap
     behs = ctx.simulate("TimersSim", "TimersSim.%s.cfg" % flavour, num=ctx.pick(40, 600), depth=25)
     drift = 0
     for b in behs:
@@ -519,7 +574,7 @@ def run_flavour(ctx, flavour, what):
     bad = {x.idx for x in rej}
     good = [t for i, t in enumerate(traces) if i not in bad and any(e["e"] == "run" for e in t["ev"])]
     if good:
-        ctx.selftest_rejects("TimersTrace", good[nex - 50:nex + 150] if len(good) > nex + 150 else good[-200:], mutate, n=20)
+        ctx.selftest_rejects("TimersTrace", good[::max(1, len(good) // 24)], mutate, n=20)
     return traces, rej
 
 
